@@ -106,6 +106,9 @@ func (this *NodesManager) tryJoin(ctx context.Context, address string) error {
 			// A restarted member recovers its address book from its own log and
 			// snapshot; the list of the member it happens to ask may lag behind
 			// (and would bring back a node whose removal was already applied here).
+			// A member that died before it stored any of the log recovers nothing
+			// and takes the list like a new joiner - it could not answer the
+			// leader otherwise, and the whole log reaches it in order afterwards.
 			continue
 		}
 		this.clusterConn.AddNode(node.GetId(), node.GetAddress())
